@@ -1,9 +1,12 @@
 import CfrVerif.Proofs.Frontier
 import CfrVerif.Proofs.FrontierExt
 import CfrVerif.Proofs.GameWF
-import CfrVerif.Proofs.LocksCheck
+import CfrVerif.Proofs.LocksWide
+import CfrVerif.Proofs.LocksPerm
 --! audit CfrVerif/Proofs/Locks.lean
 --! audit CfrVerif/Proofs/LocksCheck.lean
+--! audit CfrVerif/Proofs/LocksWide.lean
+--! audit CfrVerif/Proofs/LocksPerm.lean
 /-!
 # C07 — the sampled solvers are thread-count invariant once the random choices are fixed
 
